@@ -186,4 +186,26 @@ pub fn run(ctx: &mut Ctx) {
             }
         }
     }
+    // the bracket-less spelling for the data operators over path keys in every lexer state (escapes without
+    // dots, trailing / leading separators, doubled separators): {"var": k} is exactly {"var": [k]}
+    if ctx.mine() {
+        let datas = crate::history::lexer_datas();
+        for k in ["x\\", ".a", "\\.a", "a.", "a..b", "", "a\\", "\\", ".", "a\\.b", "a.b", "a\\b", "a\\\\b", "\\a", "b.0", "b.-1", "ab"] {
+            for d in datas.iter().chain([json!({"ab": "unescaped", "a\\b": "verbatim", "a": {"b": 1}})].iter()) {
+                for name in ["var", "missing"] {
+                    ctx.edge();
+                    let r1 = al::obj1(name, json!(k));
+                    let r2 = op(name, vec![json!(k)]);
+                    let (o1, o2) = (ctx.exec(&r1, d), ctx.exec(&r2, d));
+                    let same = match (o1.ok(), o2.ok()) {
+                        (Some(a), Some(b)) => a == b,
+                        (None, None) => o1.is_err() && o2.is_err(),
+                        _ => false,
+                    };
+                    ctx.record("sugar:path-keys:bracketed", &r2, d, &o2, None);
+                    ctx.record("sugar:path-keys:bare", &r1, d, &o1, if same { None } else { Some((format!("same as bracketed: {}", o2.show()), o1.show())) });
+                }
+            }
+        }
+    }
 }
